@@ -553,6 +553,10 @@ class ISD(model.Document):
 
         StyleProcessors.BY_STYLE_PROP[inherited_style_prop].inherit(parent, isd_element)
 
+      # hand down the writing mode of the region (removed again below as not applicable)
+
+      isd_element.set_style(styles.StyleProperties.WritingMode, parent.get_style(styles.StyleProperties.WritingMode))
+
 
     # initial value styling
 
@@ -813,9 +817,11 @@ def _make_rw_length(value: numbers.Number) -> styles.LengthType:
 
 def _get_writing_mode(isd_parent: model.ContentElement, isd_element: model.ContentElement) -> styles.WritingModeType:
 
-  while isd_parent is not None:
-    isd_element = isd_parent
-    isd_parent = isd_element.parent()
+  # the ISD is built top-down: the parent is not linked to its own parent yet, but it still carries the
+  # writing mode that was handed down from the region (see the inherited styling step of _process_element)
+
+  if isd_parent is not None:
+    return isd_parent.get_style(styles.StyleProperties.WritingMode)
 
   return isd_element.get_style(styles.StyleProperties.WritingMode)
 
